@@ -955,7 +955,7 @@ func c12R6(c *Ctx, r *Report) {
 
 func c12R9(c *Ctx, r *Report) {
 	const rule = "C12-R9"
-	r.SetFloor(rule, 1)
+	r.SetFloor(rule, 3)
 	notExpired := callGuard("sess.Expired()==false", false, "api.session.Expired")
 	n := 0
 	for _, site := range c.CallSites("api.session.Refresh") {
@@ -968,5 +968,55 @@ func c12R9(c *Ctx, r *Report) {
 	}
 	if n == 0 {
 		r.Undecided(rule, "api.session.Refresh", "no refresh site found")
+	}
+	// orientation of the expiry test itself: expired == now is after the deadline
+	if fn := c.Func("api.(*session).Expired"); fn == nil {
+		r.Undecided(rule, "api.(*session).Expired", "anchor function missing")
+	} else {
+		eachInstr(fn, func(in ssa.Instruction) {
+			ret, ok := in.(*ssa.Return)
+			if !ok || ret.Block() == fn.Recover {
+				return
+			}
+			v := retVal(ret, 0)
+			okForm := false
+			if call, isCall := v.(*ssa.Call); isCall {
+				_, a0Now := isCallTo(call.Call.Args[0], "time.Now")
+				a1Deadline := len(call.Call.Args) > 1 && fieldLoadOf(call.Call.Args[1], "api.session", "validUntil")
+				_, a1Now := func() (*ssa.Call, bool) {
+					if len(call.Call.Args) > 1 {
+						return isCallTo(call.Call.Args[1], "time.Now")
+					}
+					return nil, false
+				}()
+				a0Deadline := fieldLoadOf(call.Call.Args[0], "api.session", "validUntil")
+				switch calleeName(&call.Call) {
+				case "time.Time.After":
+					okForm = a0Now && a1Deadline
+				case "time.Time.Before":
+					okForm = a0Deadline && a1Now
+				}
+			}
+			r.Check(okForm, rule, "api.(*session).Expired / expired means now is after the deadline", "returns time.Now().After(validUntil) (or validUntil.Before(time.Now()))",
+				"the expiry test is not 'now after validUntil': live sessions are refused or expired ones accepted", c.Pos(ret.Pos()))
+		})
+	}
+	if fn := c.Func("api.(*session).Refresh"); fn != nil {
+		eachInstr(fn, func(in ssa.Instruction) {
+			st, ok := in.(*ssa.Store)
+			if !ok {
+				return
+			}
+			if fr, ok := fieldOfAddr(st.Addr); !ok || fr.Name != "validUntil" {
+				return
+			}
+			okForm := false
+			if call, isCall := st.Val.(*ssa.Call); isCall && calleeName(&call.Call) == "time.Time.Add" {
+				_, fromNow := isCallTo(call.Call.Args[0], "time.Now")
+				_, isParam := call.Call.Args[1].(*ssa.Parameter)
+				okForm = fromNow && isParam
+			}
+			r.Check(okForm, rule, "api.(*session).Refresh / new deadline is now + ttl", "validUntil = time.Now().Add(ttl)", "the refreshed deadline is not now + ttl", c.Pos(st.Pos()))
+		})
 	}
 }
